@@ -51,8 +51,8 @@ def run_case(case):
         _, c, f = solve.solve(S_, q, levels, precision=prec, **kw)
         return solve.as3d(c, nl), solve.as3d(f, nl)
 
-    def cmp(what, a, b, extra):
-        scale = max(float(np.max(np.abs(b))), 1e-300)
+    def cmp(what, a, b, extra, floor=0.0):
+        scale = max(float(np.max(np.abs(b))), floor, 1e-300)
         e = float(np.max(np.abs(a - b))) / scale
         key = f"{what}_{prec}"
         resid[key] = max(resid.get(key, 0.0), e)
@@ -65,9 +65,10 @@ def run_case(case):
     bg = float(rng.choice([0.0, 3.5]))
     sx, sy = shift_draw(rng, nx), shift_draw(rng, ny)
     c0, f0 = run(St, q0, srf_bg_conc=bg)
+    sc0, sf0 = solve.surface_scales(St, q0, precision=prec)
     c1, f1 = run(St, np.roll(q0, (sy, sx), axis=(0, 1)), srf_bg_conc=bg)
-    cmp("source_translation", c1, np.roll(c0, (sy, sx), axis=(1, 2)), dict(field="conc", shift=(sx, sy), source=skind))
-    cmp("source_translation", f1, np.roll(f0, (sy, sx), axis=(1, 2)), dict(field="flx", shift=(sx, sy), source=skind))
+    cmp("source_translation", c1, np.roll(c0, (sy, sx), axis=(1, 2)), dict(field="conc", shift=(sx, sy), source=skind), floor=sc0)
+    cmp("source_translation", f1, np.roll(f0, (sy, sx), axis=(1, 2)), dict(field="flx", shift=(sx, sy), source=skind), floor=sf0)
     if (sx % nx or sy % ny) and np.ptp(q0) > 0:
         sigs.append(f"{case['idx']}|a")
     # (b)
@@ -84,10 +85,11 @@ def run_case(case):
     unit = np.zeros((ny, nx))
     unit[jm, im] = 1.0
     Rc, Rf = run(St, unit)
+    scu, sfu = solve.surface_scales(St, unit, precision=prec)
     jj = (2 * jm - np.arange(ny)) % ny
     ii = (2 * im - np.arange(nx)) % nx
-    cmp("footprint_is_point_reflection_of_unit_response", F0, Rf[:, jj][:, :, ii], dict(field="flx", point=(im, jm)))
-    cmp("footprint_is_point_reflection_of_unit_response", G0, Rc[:, jj][:, :, ii], dict(field="conc", point=(im, jm)))
+    cmp("footprint_is_point_reflection_of_unit_response", F0, Rf[:, jj][:, :, ii], dict(field="flx", point=(im, jm)), floor=sfu)
+    cmp("footprint_is_point_reflection_of_unit_response", G0, Rc[:, jj][:, :, ii], dict(field="conc", point=(im, jm)), floor=scu)
     sigs.append(f"{case['idx']}|c")
     # (d) periodic
     im_, jm_ = int(rng.integers(nx)), int(rng.integers(ny))
